@@ -563,7 +563,58 @@ def classify_copula(case):
     return labels, nt
 
 
+# ------------------------------------------------------------------------------------ busy intervals (tens of thousands of jumps)
+def enum_busy(tier):
+    cases = [{"counts": [3, 70000, 0, 12], "T": 2.0}, {"counts": [65535, 65536, 1], "T": 1.0}]
+    if tier != "quick":
+        cases += [{"counts": [0, 131077, 4, 0, 70001], "T": 30.0}, {"counts": [200000], "T": 10.0}]
+    return cases
+
+
+def body_busy(case):
+    """direct simulator on fixed dates; the jump counts go through the pre-computation (numpy's Poisson sampler scripted,
+    numpy integers as it returns them), every jump has size 1: the jump path is the running sum of the counts"""
+    from rpylib.process.levyprocess import LevyProcess
+
+    counts, T = case["counts"], case["T"]
+    nd = len(counts)
+    dates = [T * (k + 1) / nd for k in range(nd)]
+    model = build_model({"family": "merton", "params": {"sigma": 0.1, "mu_j": 0.0, "sigma_j": 0.1, "intensity": 5.0}, "exp": None})
+    product = _product(dates, stochastic_dates=False)
+    proc = LevyProcess(model)
+    proc.initialisation(product)
+    todo = deque(counts)
+    orig = np.random.poisson
+
+    def scripted(lam=1.0, size=None):
+        n_ = 1 if size is None else int(np.prod(size))
+        vals = np.array([todo.popleft() for _ in range(n_)], dtype=np.int64)
+        return vals[0] if size is None else vals.reshape(size)
+
+    np.random.poisson = scripted
+    try:
+        proc.pre_computation(1, product)
+    finally:
+        np.random.poisson = orig
+    proc.model.jump_increment = lambda n: np.ones(int(n), dtype=float)
+    path = proc.simulate_one_path()
+    got = np.asarray(path.jump_path, dtype=float).ravel()
+    ref = np.concatenate(([0.0], np.cumsum(np.array(counts, dtype=float))))
+    if got.shape != ref.shape or not np.array_equal(got, ref):
+        return [Violation("C15/levy/fixed/busy-interval/jump-path-is-not-the-running-sum-of-the-jumps",
+                          f"unit jumps, counts per interval {counts}: jump path {got.tolist()} vs {ref.tolist()}")]
+    return []
+
+
+def classify_busy(case):
+    return [f"dates={len(case['counts'])}"], max(case["counts"]) > 65535
+
+
 SUBCHECKS = [
+    SubCheck("busy-intervals", body_busy, classify_busy,
+             rule="direct simulator, fixed dates, unit jumps, jump counts per interval up to 2e5 handed out by a scripted "
+                  "numpy Poisson sampler through the pre-computation: jump path = running sum of the counts",
+             enumerate=enum_busy, shards={"quick": 2, "thorough": 4}, exhaustive=False),
     SubCheck("scripted-simulators-1d", body, classify,
              rule="simulator in {direct LevyProcess, MarkovChainProcess, CouplingMarkovChain level 1..2} x mode in "
                   "{fixed dates, jump times, maximum step} x 1..6(12) observation dates x scripted jump counts (incl. "
